@@ -66,6 +66,7 @@ def run(tier, seed):
                     "whitelist": wl[-1] if wl else None, "solver": g.rng.choice(["euler", "rk4", "solve_ivp"])})
         p["obs"] = obs
         progs.append(p)
+    progs.append(carrier([{"obs": "oracle", "name": "c08_cumgrid"}]))
     ex = checklib.explore(progs, keys=KEYS, per_prog_timeout=20.0)
     nontrivial = set()
     for p, a in zip(progs, ex["mres"]):
@@ -73,7 +74,7 @@ def run(tier, seed):
                                                  for o in (a.get("obs") or [])):
             nontrivial.add(checklib.signature(p))
     return {"programs": progs, "explore": ex, "distinct_nontrivial": len(nontrivial),
-            "rule": "(a third of the models get another flow of a requested name after the request) stratified models with time-varying weights and 1-7 chained requests of all kinds (strata filters, raw and "
+            "rule": "(one carrier program: cumulative outputs from every interior model time on decimal time grids) (a third of the models get another flow of a requested name after the request) stratified models with time-varying weights and 1-7 chained requests of all kinds (strata filters, raw and "
                     "midpoint flows, cumulative with and without a start time, function outputs with parameters, computed "
                     "values), euler trajectories compared with the model; on the implementation every output is recomputed from "
                     "outputs and one_step flow rates at every row, for euler, rk4 or the adaptive solver; non-trivial = some "
